@@ -5,7 +5,10 @@ screens, any number of connections, the process-global list of registered securi
 auth.c, application-registered handlers and the TightVNC file-transfer extension's security type 16.
 
 C ↔ model (src/libvncserver unless noted)
-  rfbNewTCPOrUDPClient (version string, state)            ↔ `Ev.connect`
+  rfbNewTCPOrUDPClient (version string, state)            ↔ `Ev.connect cid sid rev`: `rev = false` an inbound
+    viewer (cl->reverseConnection = FALSE), `rev = true` the client record made by a successful
+    rfbReverseConnection (flag set right after rfbNewClient, before any message is processed)
+  rfbReverseConnection whose rfbConnect fails              ↔ `Ev.reverseFailed` (no effect at all)
   bytes arriving on the socket                             ↔ `Ev.recv` (appended to `inbuf`)
   one call of rfbProcessClientMessage                      ↔ `Ev.proc`  → `procConn`
   rfbRegisterSecurityHandler / rfbUnregisterSecurityHandler (application) ↔ `Ev.register` / `Ev.unregister`
@@ -90,10 +93,17 @@ def Handler.type : Handler → Nat
   | .tight => C05.rfbSecTypeTight
   | .app t => t
 
+/-- how a client record came into being -/
+inductive Origin where
+  | inbound      -- a viewer connected to the server (rfbNewClient on an accepted socket)
+  | reverse      -- rfbReverseConnection whose outgoing connect succeeded
+  deriving DecidableEq, Repr
+
 structure Conn where
   id : Nat
   screen : Nat
-  reverse : Bool
+  reverse : Bool                     -- cl->reverseConnection: what the authentication code reads
+  origin : Origin := .inbound        -- history: set at creation, never read by the code
   st : St := .ver
   isOpen : Bool := true
   peerClosed : Bool := false
@@ -302,7 +312,8 @@ def tightHandler (env : Env) (scr : Screen) (rand : List UInt8) (c : Conn) : Con
 /-- an application handler works on the client record; identity, screen, direction and the peer's
 end of the socket are not its to change -/
 def appRun (env : Env) (t : Nat) (c : Conn) : Conn :=
-  { env.app t c with id := c.id, screen := c.screen, reverse := c.reverse, peerClosed := c.peerClosed }
+  { env.app t c with id := c.id, screen := c.screen, reverse := c.reverse, origin := c.origin,
+                     peerClosed := c.peerClosed }
 
 def runRegistered (env : Env) (scr : Screen) (rand : List UInt8) (c : Conn) : Handler → Conn
   | .tight => tightHandler env scr rand c
@@ -355,6 +366,7 @@ inductive Ev where
   | proc (cid : Nat)
   | peerClose (cid : Nat)
   | setRand (r : List UInt8)
+  | reverseFailed (sid : Nat)        -- rfbReverseConnection on screen `sid` whose connect fails: returns NULL
   | register (h : Handler)           -- the application calls rfbRegisterSecurityHandler
   | unregister (h : Handler)         -- … rfbUnregisterSecurityHandler
   deriving DecidableEq, Repr
@@ -367,13 +379,15 @@ def step (fixed : Bool) (env : Env) (screens : List Screen) (s : Proc) : Ev → 
     else match screens[sid]? with
       | none => s
       | some _ =>
-        { s with conns := { id := cid, screen := sid, reverse := rev, sent := [.version] } :: s.conns }
+        { s with conns := { id := cid, screen := sid, reverse := rev,
+                             origin := if rev then .reverse else .inbound, sent := [.version] } :: s.conns }
   | .recv cid bytes =>
     { s with conns := s.conns.map (fun c =>
         if c.id == cid && !c.peerClosed then { c with inbuf := c.inbuf ++ bytes } else c) }
   | .peerClose cid =>
     { s with conns := s.conns.map (fun c => if c.id == cid then { c with peerClosed := true } else c) }
   | .setRand r => { s with rand := r }
+  | .reverseFailed _ => s            -- rfbConnect < 0: no client record, no other effect
   | .register h => { s with handlers := if h ∈ s.handlers then s.handlers else h :: s.handlers }
   | .unregister h => { s with handlers := s.handlers.erase h }
   | .proc cid =>
